@@ -4,7 +4,8 @@ from __future__ import annotations
 from vlib.e1 import runner
 from vlib.gen import wfgen
 
-ALL_MON = ['c01', 'c07', 'c02', 'c09', 'c26', 'c10']
+ALL_MON = ['c01', 'c07', 'c02', 'c09', 'c26', 'c10', 'c03', 'c04', 'c05',
+           'c11', 'c31']
 
 E1_META = {
     'engine': 'E1 schedmon',
